@@ -46,6 +46,8 @@ pub struct PolicyState<B, C> {
     channel_senders: Vec<mpsc::Sender<Vec<u8>>>,
     channel_receivers: Option<Vec<tokio::sync::Mutex<mpsc::Receiver<Vec<u8>>>>>,
     start_span: Option<Span>,
+    #[cfg(feature = "__verif")]
+    verif_id: usize,
 }
 
 impl<B, C> PolicyState<B, C>
@@ -79,6 +81,8 @@ where
                 channel_senders: vec![],
                 channel_receivers: None,
                 start_span: None,
+                #[cfg(feature = "__verif")]
+                verif_id: usize::MAX,
             },
             PolicyStateHandle(cmd_tx),
         )
@@ -94,6 +98,14 @@ where
         self
     }
 
+    /// Verification only: tag this state machine for the observer.
+    #[cfg(feature = "__verif")]
+    #[doc(hidden)]
+    pub fn with_verif_id(mut self, id: usize) -> Self {
+        self.verif_id = id;
+        self
+    }
+
     /// Executes the policy state machine.
     ///
     /// This future completes once the state machines execution is finished, either due to completion or
@@ -105,6 +117,28 @@ where
         // clone of the span in the policy state and record those values later once we know them
         let start_span = info_span!(target:"polytune_server_core::state", "start", computation_id = field::Empty, party = field::Empty);
         self.start_span = Some(start_span.clone());
+        #[cfg(feature = "__verif")]
+        {
+            return async {
+                while let Some(cmd) = self.cmd_rx.recv().await {
+                    let (id, name, before) = (self.verif_id, format!("{cmd:?}"), format!("{:?}", self.state_kind));
+                    let name: String = name.chars().take(700).collect();
+                    self = match self.handle_cmd(cmd).await {
+                        ControlFlow::Continue(this) => {
+                            crate::verif::observe(id, &name, &before, &format!("{:?}", this.state_kind));
+                            this
+                        }
+                        ControlFlow::Break(_) => {
+                            crate::verif::observe(id, &name, &before, "Stopped");
+                            return;
+                        }
+                    }
+                }
+            }
+            .instrument(start_span)
+            .await;
+        }
+        #[cfg(not(feature = "__verif"))]
         async {
             while let Some(cmd) = self.cmd_rx.recv().await {
                 self = match self.handle_cmd(cmd).await {
